@@ -257,10 +257,37 @@ pub fn generator_return(
     let obj_ref = obj.borrow();
     match &obj_ref.exotic {
         ExoticObject::BytecodeGenerator(state) => {
-            let is_async = state.borrow().is_async;
-            state.borrow_mut().status = GeneratorStatus::Completed;
+            let gen_state = state.clone();
+            let is_async = gen_state.borrow().is_async;
             drop(obj_ref);
-            let result = create_generator_result(interp, value, true);
+
+            // A generator suspended at a yield performs `return value` there, so that the
+            // enclosing finally blocks run; one that has not started or has finished just
+            // completes
+            let suspended = {
+                let state_ref = gen_state.borrow();
+                state_ref.started && state_ref.status != GeneratorStatus::Completed
+            };
+            let result = if suspended {
+                // While delegating (yield*), the inner iterator is closed first
+                let delegate = gen_state.borrow_mut().delegated_iterator.take();
+                if let Some((iter_obj, _)) = delegate {
+                    let return_key = PropertyKey::String(interp.intern("return"));
+                    let return_fn = iter_obj.borrow().get_property(&return_key);
+                    if let Some(return_fn @ JsValue::Object(_)) = return_fn {
+                        interp.call_function(
+                            return_fn,
+                            JsValue::Object(iter_obj.cheap_clone()),
+                            core::slice::from_ref(&value),
+                        )?;
+                    }
+                }
+                gen_state.borrow_mut().return_value = Some(value);
+                interp.resume_bytecode_generator(&gen_state)?
+            } else {
+                gen_state.borrow_mut().status = GeneratorStatus::Completed;
+                create_generator_result(interp, value, true)
+            };
             if is_async {
                 wrap_in_fulfilled_promise(interp, result)
             } else {
